@@ -3,11 +3,14 @@ Driver for the `_split_disjoint_nodes` / `_relabel_mutations_node` models:
 `lake env lean --run Driver/Split.lean < cases`.
 Block format (coordinates are exact rationals `num/den`):
   case <id> / n <N> / excl <0|1>... / edges l r p c l r p c ... / ins e... / rem e... /
-  muts pos node pos node ... / flags f... (optional: nodes_flags, naturals) / end
+  muts pos node pos node ... / flags f... (optional: nodes_flags, naturals) /
+  mdrows t... / mdenc t... (optional, N tokens each: raw metadata row of node i as hex, `-` = empty;
+  the re-encoded row with `unsplit_node_id` for node i, `fail` = the codec refuses) / end
 `ins`/`rem` are tskit's edge insertion / removal orders (edge ids).
 Reply: `<id>;<edges_parent>;<edges_child>;<nodes_order>;<split_nodes>;<mutations_node>;<flags>` (each a
 space separated list of naturals; `<flags>` = the output flags column for NODE_SPLIT_BY_PREPROCESS = 2^30,
-empty when no `flags` line was sent) or `<id> bad-op`.
+empty when no `flags` line was sent), then `;<metadata rows of the output node table>` (tokens; empty
+without `mdrows`), or `<id> bad-op`.
 -/
 import TsdateVerif.Model.Split
 import TsdateVerif.Model.Proto
@@ -61,8 +64,20 @@ def runCase (blk : List (List String)) : Option String := do
       let fl ← mapAll String.toNat? ws
       if fl.length ≠ N then none
       pure (outFlags (2 ^ 30) fl.toArray out)
+  let md ← match field blk "mdrows", field blk "mdenc" with
+    | some rows, some encs =>
+      if rows.length ≠ N ∨ encs.length ≠ N then none
+      else
+        let encA := encs.toArray
+        let enc : Nat → Option String := fun u =>
+          match encA[u]? with
+          | some t => if t = "fail" then none else some t
+          | none => none
+        some (outMetadata (fun t => t == "-") "-" rows.toArray out.order (extraMd enc out.split))
+    | none, none => some []
+    | _, _ => none
   pure (id ++ ";" ++ showNats out.parent ++ ";" ++ showNats out.child ++ ";" ++ showNats out.order
-    ++ ";" ++ showNats out.split ++ ";" ++ showNats m ++ ";" ++ showNats flags)
+    ++ ";" ++ showNats out.split ++ ";" ++ showNats m ++ ";" ++ showNats flags ++ ";" ++ " ".intercalate md)
 
 partial def loop (h : IO.FS.Stream) : IO Unit := do
   match ← readBlock h with
